@@ -317,7 +317,7 @@ var def = pbt.Def[Case]{Name: "cross-peer-requests", Gen: gen, Run: judge}
 
 func TestProp(t *testing.T) {
 	outerT = t
-	pbt.Check(t, run, def, 8000, 800000)
+	pbt.Check(t, run, def, 8000, 400000)
 }
 
 func TestReplay(t *testing.T) {
